@@ -318,8 +318,8 @@ Section TP.
       destruct (names_sub (c_subs c) h) eqn:Hn; [discriminate|]. injection Hr as <-.
       destruct c as [n d ld hd sp pol ds b act af subs]. cbn [parse_cmd c_subs] in *.
       rewrite (help_index_at w h more Hp Hh).
-      assert (Hlt : (length w <? opts_and_args subs (w ++ h :: more)) = true).
-      { clear -Hw Hn. apply Nat.ltb_lt. induction w as [|t w IHw]; cbn [List.app length opts_and_args].
+      assert (Hlt : (length w <=? opts_and_args subs (w ++ h :: more)) = true).
+      { clear -Hw Hn. apply Nat.leb_le. apply Nat.lt_le_incl. induction w as [|t w IHw]; cbn [List.app length opts_and_args].
         - unfold names_sub in Hn. rewrite Hn. lia.
         - cbn [no_alias forallb] in Hw. apply andb_true_iff in Hw as [Ht Hw]. apply negb_true_iff in Ht.
           rewrite Ht. specialize (IHw Hw). lia. }
@@ -341,8 +341,8 @@ Section TP.
       rewrite Hhi.
       pose proof (opts_and_args_own subs w (alias :: pre ++ h :: more) Hw (find_sub_names _ _ _ Hf)) as Hn.
       rewrite Hn.
-      assert (Hge : (length (w ++ alias :: pre) <? length w) = false).
-      { apply Nat.ltb_ge. rewrite app_length. lia. }
+      assert (Hge : (length (w ++ alias :: pre) <=? length w) = false).
+      { apply Nat.leb_gt. rewrite app_length. cbn [length]. lia. }
       rewrite Hge.
       rewrite skipn_app, skipn_all, Nat.sub_diag. cbn [skipn List.app].
       rewrite first_some_alias, Hf. cbn [option_map].
